@@ -257,7 +257,9 @@ def unwind_args(unit, job):
         args += ["--unwind", str(uw)]
     sets = []
     for key, k in (job.get("unwindset") or {}).items():
-        if re.search(r"\.\d+$", key):
+        if key.startswith("recursion:"):
+            sets.append("%s:%d" % (key[len("recursion:"):], k))  # CBMC: a bare function name bounds the recursion of that function only
+        elif re.search(r"\.\d+$", key):
             sets.append("%s:%d" % (key, k))
         else:
             ids = unit.loops.get(key)
